@@ -151,7 +151,8 @@ def check(ctx):
     for f, gf, n in rels:
         keys = gf.fact_keys_at(n)
         if f.name == '_new_packet_cb':
-            ok = fact_key('self._lock_pattern == release_pattern', True) in keys
+            ok = fact_key('self._lock_pattern == release_pattern', True) in keys or \
+                any(k_[1] and k_[0] in (fact_key('self._lock_pattern == pk.data[:%d]' % w_)[0] for w_ in (1, 2, 3)) for k_ in keys)      # the pattern with or without a local for it
             ctx.inst('R4', f, 'release-on-match@%s' % ('misc' if fact_key('pk.channel == MISC_CHANNEL', True) in keys else 'rw'), ok,
                      'the lock is released by a reply only if it matches the stored pattern; guards %s' % sorted(keys))
         elif f.name == 'run':
